@@ -251,6 +251,18 @@ def run(ctx):
         c.merge_single_qubit_gates()
         cases.append({"nq": 1, "nb": 1, "specs": specs, "pre": [["merge"]]})
         circuits.append(c)
+    # history: for a third of the circuits export first, then relabel the qubits in place; the export that is checked
+    # below is then the SECOND export of the same circuit object
+    for case, c in zip(cases, circuits):
+        if rng.random() < 0.35 and c.qubit_register_size >= 2:
+            export(c)
+            perm = list(range(c.qubit_register_size))
+            rng.shuffle(perm)
+            try:
+                implrun.apply_pass(c, ["map", perm])
+                case["history"] = ["export", ["map", perm], "export"]
+            except Exception:  # noqa: BLE001
+                pass
     mres = model.call_many([["export_qs", c.qubit_register_size, c.bit_register_size, ser.ser_stmts(c.ir.statements)] for c in circuits])
     ctx.suite("qs", cases=len(cases))
     for case, c, mr in zip(cases, circuits, mres):
@@ -265,6 +277,11 @@ def replay(ctx, payload):
     case = payload.get("case") or (payload.get("first_disagreement") or {}).get("case")
     c = gen.build_circuit(case["nq"], case["nb"], case["specs"])
     tc.apply_pre(random.Random(0), c, case.get("pre", []))
+    for h in case.get("history", []):
+        if h == "export":
+            export(c)
+        else:
+            implrun.apply_pass(c, list(h))
     mres = model.call_many([["export_qs", c.qubit_register_size, c.bit_register_size, ser.ser_stmts(c.ir.statements)]])
     check_case(ctx, case, c, mres[0])
     return {"export": str(export(c))[:1000], "oracle_failures": ctx.oracle_failures, "fails": bool(ctx.oracle_failures)}
